@@ -19,7 +19,7 @@ EXPLANATION = (
     "its hooks is classified in the LEN domain {SAME, N, GROW, SHRINK, UNKNOWN}: unfiltered comprehension / map / zip-unpack "
     "over the live population (zip partners must be population-shaped fields), slot stores, reorderings, the length-safe base "
     "helpers and comprehensions over range(population_size) are SAME/N. An optimizer all of whose writes are SAME/N and whose "
-    "_init_population is the base one is conserved by construction. The committed reference table (69 classes confirmed by "
+    "_init_population is the base one is conserved by construction. The committed reference table (71 classes confirmed by "
     "reading) is re-derived on every run: a reference-listed optimizer acquiring a GROW/SHRINK write is a violation, one "
     "falling to UNKNOWN through an unrecognised rewrite is an analysis error (exit 2)."
 )
@@ -37,8 +37,6 @@ UNDECIDED = {
     "HenryGasSolubilityOptimization": "groups of int(N/n_clusters) members + residual",
     "CoyotesOptimization": "packs x coyotes per pack",
     "ElephantHerdOptimization": "clans of int(N/n_clans) members",
-    "CuckooSearchOptimization": "N - n_cut survivors + n_cut fresh nests",
-    "EarthwormsOptimization": "keep + (N - keep) mutated",
     "FireHawkOptimization": "_replace_and_trim_population of a computed list",
     "ForestOptimizationAlgorithm": "variable by design: seeding, ageing and area limit",
     "GeneticAlgorithmOptimization": "children come in pairs; own _init_population",
@@ -47,14 +45,14 @@ UNDECIDED = {
     "WaterCycleOptimization": "sea/rivers + regrouped streams",
 }
 CONSERVED = set("""AfricanVulture AntColony AntLion Aquila Archimede Bat BattleRoyale BiogeographyBased BrownBear CamelCaravan CatSwarm
-ChaosGame ChernobylDisaster Coati CoralReef CoronavirusHerdImmunity Dragonfly DwarfMongoose EgretSwarm ElectromagneticField EnergyValley
+ChaosGame ChernobylDisaster Coati CoralReef CoronavirusHerdImmunity CuckooSearch Dragonfly DwarfMongoose Earthworms EgretSwarm ElectromagneticField EnergyValley
 FicksLaw FireflySwarm Fireworks FishSchoolSearch FlowerPollinationAlgorithm ForensicBasedInvestigation Fox GainingSharingKnowledge
 GerminalCenter GiantTrevally GizaPyramidConstruction GoldenJackal Grasshopper GreyWolf HarmonySearch HeapBased HungerGamesSearch
 InvasiveWeed KrillHerd LeviFlightJayaSwarm MarinePredators MothFlame MountainGazelle Multiverse NuclearReaction Osprey ParticleSwarm
 PathfinderAlgorithm Pelican RungeKutta SalpSwarm Seagull Serval SiberianTiger QleSineCosineAlgorithm SineCosineAlgorithm SpottedHyena
 SuccessHistoryIntelligent SwarmHillClimbing TasmanianDevil TunaSwarm VirusColonySearch Walrus WarStrategy Whales WildebeestHerd WindDriven
 Zebra""".split())
-N_CONSERVED = 69
+N_CONSERVED = 71
 
 
 def run(prog: Program, res: Result) -> None:
@@ -122,7 +120,7 @@ def run(prog: Program, res: Result) -> None:
         res.add(Finding(P, "C10.R1-pool-hand-off", "helpers.get_pool_results::loop", gp.loc(),
                         "get_pool_results does not append every future's result exactly once: pooled generations lose or duplicate agents"))
     # sort_and_trim keeps FIRST(k)
-    from ..ord import L, OrdUnknown, evaluate
+    from ..ord import L, OrdDeviation, OrdUnknown, evaluate
     from ..sgn import MIN
     try:
         got, _ = evaluate(prog, "sort_and_trim", MIN)
@@ -131,6 +129,8 @@ def run(prog: Program, res: Result) -> None:
         if not okt:
             res.add(Finding(P, "C10.R1-trim-exact", "helpers.sort_and_trim::window", prog.func(f"{PKG}.helpers.sort_and_trim").loc(),
                             f"sort_and_trim returns {got.show() if isinstance(got, L) else got}, not the first population_size agents"))
+    except OrdDeviation as exc:
+        res.note(f"sort_and_trim: {exc} (ranking deviation: C16/C17; the size of the result is not affected)")
     except OrdUnknown as exc:
         res.errors.append(f"ORD cannot evaluate sort_and_trim: {exc}")
 
@@ -175,11 +175,11 @@ def run(prog: Program, res: Result) -> None:
             continue
         for (w, c, why) in problems:
             key = construct_key(prog, w.stmt, w.fi.module)
-            if c in ("GROW", "SHRINK"):
+            if c in ("GROW", "SHRINK", "MISCOUNT"):
                 res.ob(False, None, key)
                 res.add(Finding(P, "C10.R2-conserved-by-construction", key, w.loc(),
                                 f"{ci.name} is conserved by construction in the reference table, but `{w.text(80)}` can "
-                                f"{'add agents to' if c == 'GROW' else 'remove agents from'} the population ({why}): a recorded generation "
+                                f"{'add agents to' if c == 'GROW' else 'remove agents from' if c == 'SHRINK' else 'change the size of'} the population ({why}): a recorded generation "
                                 f"would not have exactly population_size agents"))
             else:
                 res.errors.append(f"{ci.name}: population write `{w.text(70)}` at {w.loc()} has a shape the LEN domain does not cover "
